@@ -5,6 +5,7 @@ package c16
 import (
 	"encoding/json"
 	"fmt"
+	"strings"
 
 	"gopkg.in/typ.v4/lists"
 
@@ -45,6 +46,9 @@ func (H) Describe(sc any) string {
 // Generate implements core.Harness.
 func (H) Generate(r *simrt.Rand, tier string) any {
 	s := &Scenario{Kind: []string{"queue", "stack"}[r.Intn(2)]}
+	if r.Intn(10) == 0 {
+		s.Kind += "-of-empty-structs" // a zero-size element type: only counts and ok flags can be observed
+	}
 	n := 1 + r.Intn(40)
 	if r.Intn(5) == 0 {
 		n = 1 + r.Intn(300)
@@ -91,11 +95,77 @@ func (H) Shrink(sc any) []any {
 	return out
 }
 
+// runEmpty runs the history on Queue[struct{}] / Stack[struct{}].
+func runEmpty(sc *Scenario) *core.Violation {
+	var q lists.Queue[struct{}]
+	var s lists.Stack[struct{}]
+	queue := strings.HasPrefix(sc.Kind, "queue")
+	n := 0
+	for i := 0; i < len(sc.Ops); i++ {
+		simrt.Yield()
+		ok, had := false, false
+		switch sc.Ops[i] {
+		case 'P':
+			if queue {
+				q.Enqueue(struct{}{})
+			} else {
+				s.Push(struct{}{})
+			}
+			n++
+		case 'O':
+			had = true
+			if queue {
+				_, ok = q.Dequeue()
+			} else {
+				_, ok = s.Pop()
+			}
+			if ok != (n > 0) {
+				return &core.Violation{Signature: sc.Kind + ":empty-result", Detail: fmt.Sprintf("op %d of %q: removal returned ok=%v with %d elements inside", i, sc.Ops, ok, n)}
+			}
+			if n > 0 {
+				n--
+			}
+		case 'K':
+			had = true
+			if queue {
+				_, ok = q.Peek()
+			} else {
+				_, ok = s.Peek()
+			}
+			if ok != (n > 0) {
+				return &core.Violation{Signature: sc.Kind + ":empty-result", Detail: fmt.Sprintf("op %d of %q: Peek returned ok=%v with %d elements inside", i, sc.Ops, ok, n)}
+			}
+		}
+		_ = had
+		got := len(s)
+		if queue {
+			got = q.Len()
+		}
+		if got != n {
+			return &core.Violation{Signature: sc.Kind + ":len-mismatch", Detail: fmt.Sprintf("op %d of %q: Len=%d want %d", i, sc.Ops, got, n)}
+		}
+	}
+	return nil
+}
+
 // Execute implements core.Harness.
 func (H) Execute(scAny any, cfg simrt.Config, st *core.Stats) (*simrt.Outcome, *core.Violation) {
 	sc := scAny.(*Scenario)
 	var v *core.Violation
 	h := core.HashString(0, sc.Kind+sc.Ops)
+	if strings.HasSuffix(sc.Kind, "-of-empty-structs") {
+		body0 := func() { v = runEmpty(sc) }
+		out := core.RunSequential(cfg, body0)
+		out.Hash = simrt.Mix(out.Hash, h)
+		out.Nontrivial = len(sc.Ops) >= 3
+		if pv := core.OutcomeViolation(out); pv != nil {
+			return out, pv
+		}
+		if out.Truncated && v == nil {
+			return out, core.NoProgress(out)
+		}
+		return out, v
+	}
 	body := func() {
 		var q lists.Queue[int] // zero values
 		var s lists.Stack[int]
